@@ -4,6 +4,7 @@ package gen
 
 import (
 	"strconv"
+	"strings"
 
 	"verifsim/tape"
 )
@@ -139,6 +140,14 @@ func (g *JSONDoc) Number(b []byte) []byte {
 
 var runes = []string{"\u00e9", "\u00df", "\u20ac", "\u65e5", "\u672c", "\U0001F600", "\U0001D11E", "\u2028", "\u2029", "\u02bc", "\ufffd", "\u0080", "\u07ff", "\u0800", "\uffff", "\U00010000", "\U0010FFFF"}
 var escapes = []string{`\"`, `\\`, `\/`, `\b`, `\f`, `\n`, `\r`, `\t`, `\u00e9`, `\u0041`, `\ud83d\ude00`, `\u2028`, `\u0000`, `\ufffd`, `\uD834\uDD1E`, `\u003c`, `\udbff\udfff`, `\ud83c\udfff`, `\ud800\udc00`, `\udbff\udc00`, `\ud800\udfff`, `\ud83d\udc00`}
+
+func init() {
+	// runs of escaped backslashes of every length up to 9, alone and in front of an
+	// escaped quote (odd and even runs of raw backslashes up to 19)
+	for k := 2; k <= 9; k++ {
+		escapes = append(escapes, strings.Repeat(`\\`, k), strings.Repeat(`\\`, k)+`\"`)
+	}
+}
 
 // StringBody appends about n bytes of string content (no quotes).
 func (g *JSONDoc) StringBody(b []byte, n int) []byte {
